@@ -112,6 +112,7 @@ class Case(object):
         self.bad = []            # (string, why) real code vs oracle
         self.parser = None
         self.oracle = None
+        self.conflicts = False
 
     def grammar_text(self):
         return "start %s; " % self.start + "; ".join(str(p) for p in self.prods)
@@ -137,10 +138,21 @@ def examine(chk, name, start, prods, tags, tier, stats):
                                     "expected": "a parser or a non-empty conflict set"},
                           key="crash:lr1.py:Grammar.parser:%s" % type(exc).__name__)
             return None
+        # level B: the model generator must produce exactly these item sets / tables
+        case = Case(name, start, prods, tags)
+        uprods = list(dict.fromkeys(prods))
+        allp = uprods + [g.productions[-1]]
+        sym = lr1dump.ordered_interner([start, lr1.START_PRIME, lr1.END_OF_INPUT] +
+                                       [x for p in prods for x in (p.lhs,) + tuple(p.rhs)])
+        code = lr1dump.Interner()
+        case.lines.append(lr1dump.gen_line(start, uprods, sym))
+        case.checks.append((0, "gen", lr1dump.gen_expected(parser, allp, sym)))
+        case.parser, case.oracle = parser, oracle
         if parser.conflicts:
             stats["conflicts"] += 1
             chk.nontrivial("conflict:" + gtext)
-            return None
+            case.conflicts = True
+            return case
         stats["conflict_free"] += 1
         for t in tags:
             stats["tags_conflict_free"][t] = stats["tags_conflict_free"].get(t, 0) + 1
@@ -153,17 +165,13 @@ def examine(chk, name, start, prods, tags, tier, stats):
                                     "observed": "no conflicts reported",
                                     "expected": "conflicts: the sentence has >= 2 parse trees"})
             return None
-        case = Case(name, start, prods, tags)
-        sym, code = lr1dump.Interner(), lr1dump.Interner()
         # duplicate productions collapse (Production is a value type): the model grammar is
         # the production list without repetitions, seed production last
-        uprods = list(dict.fromkeys(prods))
-        allp = uprods + [g.productions[-1]]
         aut, plist = lr1dump.dump_automaton(parser, "g", False, sym, code, prod_list=allp)
         case.lines += [aut, lr1dump.gram_line(start, uprods, sym),
                        lr1dump.cert_line(parser, allp, sym), "LRVALID g", "LRTERM g"]
-        case.checks.append((3, "valid", None))
-        case.checks.append((4, "term", None))
+        case.checks.append((4, "valid", None))
+        case.checks.append((5, "term", None))
         alphabet = list(oracle.terminals)
         if len(alphabet) <= 3 and "z" not in alphabet:
             alphabet.append("z")          # a token the grammar does not know
@@ -188,7 +196,6 @@ def examine(chk, name, start, prods, tags, tier, stats):
                             sw[:i] + (rs.choice(alphabet),) + sw[i + 1:]])
         stats["sampled_long"] = stats.get("sampled_long", 0) + len(sampled)
         extra += sorted(sampled)
-        case.parser, case.oracle = parser, oracle
         for w in strings + extra:
             line = judge(case, w, truth[w] if w in truth else oracle.first_error_index(w), stats, sym, code)
             case.real[w] = line
@@ -322,6 +329,24 @@ def compare_model(chk, case, answers, stats):
                 "theorem_or_correspondence": "LRVALID (Lean `Valid`) rejects the tables of a conflict-free "
                                              "Grammar.parser(); the oracle found no failing string",
                 "expected": "valid"}, found_input=False)
+        elif kind == "gen":
+            # level B: model generator `gen G` vs the real Grammar.parser(): item sets, state
+            # numbering, conflict flag, and (conflict-free) ACTION / GOTO tables
+            if ans == w:
+                stats["gen_equal"] = stats.get("gen_equal", 0) + 1
+                continue
+            stats["gen_differs"] = stats.get("gen_differs", 0) + 1
+            disagreements += 1
+            if not case.conflicts and not case.bad and stats["gen_differs"] <= 6:
+                if deep_search(chk, case, stats.get("tier", "quick"), stats):
+                    report_bad(chk, case)
+            if case.bad or too_many(chk):
+                continue
+            chk.violation("correspondence", {
+                "input": case.grammar_text(), "model": ans[:2000], "observed": w[:2000],
+                "theorem_or_correspondence": "GEN (Lean model of Grammar.parser(), level B) vs the real item "
+                                             "sets / tables; the oracle found no failing string",
+                "expected": "identical item sets, state numbering, conflict flag and tables"}, found_input=False)
         elif kind == "term":
             # termination analysis (TermOK, theorem C08_terminates): a real loop on a short input
             # would have hit the per-grammar alarm; here the table as a whole is analysed
@@ -612,7 +637,7 @@ def run(tier):
         chk.extra["traces_validated_against_impl"] = sum(
             1 for c in cases for ch in c.checks if ch[1] == "run")
         chk.extra["disagreements"] = dis
-    for c in cases[:3]:
+    for c in [c for c in cases if not c.conflicts][:3]:
         chk.sample({"grammar": c.grammar_text(), "strings": len(c.real)}, limit=4)
     chk.extra["distribution"] = stats
     chk.trusted += [
